@@ -74,7 +74,10 @@ def expect(old, new, ctx: Ctx):
         if r.get("logic") == "common.ignore_changes" and oldsame and oldsame[0] != row:
             out[oldsame[0]] = odict()
             continue
-        out[row] = expect(old.get(row, odict()), ch, ctx.child(r, row)) if is_block(r) else odict()
+        if r.get("rewrite"):
+            out[row] = copy.deepcopy(ch)    # the content of a %rewrite object is replaced as a whole: exactly the new lines, nested ones included
+        else:
+            out[row] = expect(old.get(row, odict()), ch, ctx.child(r, row)) if is_block(r) else odict()
     for row, ch in old.items():
         cl = ctx.classify(row)
         if cl is None:
